@@ -9,13 +9,27 @@ META = dict(
     technique=('Coq proof over an executable model of the DNAGenerator state machines (Sweeping, seeded Random, Deduping, Evolution with its '
                'recover override) + differential correspondence at every crash point + direct recovery oracle on the real algorithms through JSON'),
     design_ref='DESIGN.md §5 C15',
-    level_text='',
-    level_note='',
+    level_text=('Theorems (closed, no axioms) over the executable model of the DNAGenerator state machines: for EVERY configuration the syntax names '
+                '(Sweeping; seeded Random; Evolution with any initialiser, any reproduction, update None/Last n/Top n/newest-generation/recorded table; Deduping over any of these with any '
+                'hash, auto-reward, max_duplicates, max_proposal_attempts; only Deduping directly over Deduping is excluded), for every schedule of propose / feedback-in-order / abandon events '
+                '(hence every crash point k and every number w of missing rewards) a fresh instance that replays the persisted history has the same num_proposals, num_feedbacks, population '
+                '(values, fitness, ids) and de-duplication cache as the uninterrupted run, including the wrapped Evolution of a Deduping (C15_recover_observable, C15_crash_points, C15_recover_counts); '
+                'Sweeping, seeded Random and Deduping over them then make exactly the same further proposals, any number of them (C15_continuation); the Deduping wrapper preserves recoverability of '
+                'any generator (C15_dedup_wrapper); Evolution with ARBITRARY operators over an arbitrary global state recovers counters and population when the update reads only state that '
+                'reproduction does not change (C15_evolution_any_operators_partial: NSGA2/NEAT). Tie: the model is run against the real classes on every crash point of every generated run '
+                '(live state and recovered state, and the next 5 proposals), history persisted through pg.to_json_str/from_json_str; the direct oracle compares the real recovered instance with the real '
+                'uninterrupted one at every crash point.'),
+    level_note=('Trusted: Coq kernel; extraction (ExtrOcamlBasic) cross-checked against vm_compute; the harness tables (seeded PRNG draws, children returned by the real reproduction operator, NSGA2 update results) '
+                'recorded from the real run. Modelled as identity: the JSON round trip of (DNA, metadata, reward) — exercised for real by the oracle. Not modelled: NSGA2 sorting operators and NEAT speciation '
+                '(run, not modelled; partial theorem with operator hypotheses), multi-objective reward normalisation, unseeded Random. Not claimed (and refuted for the model, C15_extra_state_refuted): '
+                'num_generations / population_initialized during the initial phase, pending children of a multi-child generation, feedback out of proposal order.'),
     rule=('a case is (algorithm configuration, search space, reward table, event schedule of propose/feedback/abandon); every prefix of the schedule is a crash point; '
           'distinct by (configuration, space, rewards, schedule); non-trivial when the schedule has a crash point with at least one fed-back and one in-flight proposal'),
     trusted_base=['extraction: ExtrOcamlBasic only; ocaml/main.ml lexer/printer; cross-checked against vm_compute on a sample',
                   'the harness records the seeded PRNG draw sequence and the children returned by the (randomised) reproduction operator of the real run and hands them to the model as tables'],
-    assumptions=[],
+    assumptions=['the seeded PRNG (draw : nat -> Z) and the reproduction operator are function parameters of the model; the theorems hold for all of them',
+                 'feedback arrives in proposal order (proposals may stay in flight or be abandoned for ever)',
+                 'every propose() of the uninterrupted run returned a DNA (a run ends at its first StopIteration)'],
 )
 
 # ------------------------------------------------------------------------------------------------
@@ -42,12 +56,14 @@ def build_space(name):
   if name == 's8':
     return p.dna_spec(p.Dict(a=p.oneof([0, 1]), b=p.oneof([0, 1]), c=p.oneof([0, 1])))
   if name == 's12':
-    return p.dna_spec(p.Dict(a=p.oneof([1, 2, 3]), b=p.manyof(2, [1, 2, 3, 4], distinct=True, sorted=True, choices_distinct=True) if False else p.oneof([1, 2, 3, 4])))
+    return p.dna_spec(p.Dict(a=p.oneof([1, 2, 3]), b=p.oneof([1, 2, 3, 4])))
   if name == 's2':
     return p.dna_spec(p.oneof([0, 1]))
+  if name == 's24':
+    return p.dna_spec(p.Dict(a=p.oneof([1, 2, 3, 4]), b=p.oneof(['x', 'y', 'z']), c=p.oneof([0, 1])))
   raise KeyError(name)
 
-SPACE_NAMES = ['s6', 's4', 's3h', 's3m', 's8', 's12', 's2']
+SPACE_NAMES = ['s6', 's4', 's3h', 's3m', 's8', 's12', 's2', 's24']
 
 class Space:
   _cache = {}
@@ -238,7 +254,7 @@ def property_view(o):
   """The part of an observation the property speaks about (drops `extra`)."""
   return [o[0], o[1], o[2], o[3], [property_view(i) for i in o[5]]]
 
-ERR = {'StopIteration': 0, 'ValueError': 1, 'TypeError': 2, 'AssertionError': 3, 'KeyError': 4, 'IndexError': 5}
+ERR = {'StopIteration': 0, 'ValueError': 1, 'TypeError': 2, 'AssertionError': 3, 'KeyError': 4, 'IndexError': 5, 'ZeroDivisionError': 6}
 def err_code(e):
   return ERR.get(type(e).__name__, 9)
 
@@ -283,6 +299,7 @@ class Live:
         return out
       ev._population_update = upd
     hist = []          # [dna, reward|None, abandoned]
+    nskipped = nauto = 0
     ptr = 0
     snaps = []
     proposals = []
@@ -291,7 +308,14 @@ class Live:
     n_real = len(case['sched'])
     for i, e in enumerate(sched):
       if i <= n_real:
-        snaps.append((p.to_json_str([(d, r) for d, r, _ in hist]), observe(space, cfg, alg)))
+        hu = None
+        if e == 'f' and i < n_real:
+          q = ptr
+          while q < len(hist) and hist[q][2]:
+            q += 1
+          if q < len(hist):   # the reward is in the history but feedback() was never called
+            hu = p.to_json_str([(d, (reward_value(case, space, cfg, d) if j == q else r)) for j, (d, r, _) in enumerate(hist)])
+        snaps.append((p.to_json_str([(d, r) for d, r, _ in hist]), observe(space, cfg, alg), hu))
       if e == 'p':
         try:
           d = alg.propose()
@@ -299,6 +323,8 @@ class Live:
           terminal = (i, err_code(ex))
           break
         hist.append([d, None, False])
+        nskipped += 1 if d.metadata.get('dedup_skipped') else 0
+        nauto += 1 if ('reward' in d.metadata and d.metadata.get('feedback_sequence_number') is None) else 0
         canon_key(space, d.metadata.get('dedup_key'), d)
         proposals.append(space.idx(d))
       else:
@@ -313,7 +339,7 @@ class Live:
             alg.feedback(d, r)
             hist[ptr][1] = r
           ptr += 1
-    return dict(snaps=snaps, proposals=proposals, repro=repro, terminal=terminal, updates=updates, live=alg)
+    return dict(snaps=snaps, proposals=proposals, repro=repro, terminal=terminal, updates=updates, live=alg, skipped=nskipped, auto_rewarded=nauto)
 
   def recover(self, history_json, sched_rest, want_cont):
     """Fresh instance, same space, replay persisted history. Returns (obs | error tree, continuation)."""
@@ -383,15 +409,26 @@ def evaluate_case(case, lv=None):
   P = res['proposals']
   sched = case['sched']
   nsn = len(res['snaps'])
-  for c, (hjson, lobs) in enumerate(res['snaps']):
+  for c, (hjson, lobs, hu) in enumerate(res['snaps']):
     k = lobs[0]
     robs, rcont, err = lv.recover(hjson, None, det)
+    und = []
+    if hu is not None:
+      uobs, _, uerr = lv.recover(hu, None, False)
+      und = [uobs]
+      sh = shape(cfg)
+      if uerr is not None:
+        hits.append(('C15/undelivered-reward/recover-raises/%s/%s' % (sh, uerr.split(':')[0]), 'recover() raises %s when the last reward is in the history but was never fed back (crash point %d)' % (uerr, c), c))
+      elif c + 1 < len(res['snaps']):
+        d = diff_clause(cfg, property_view(res['snaps'][c + 1][1]), property_view(uobs))
+        if d:
+          hits.append(('C15/undelivered-reward/%s/%s' % (d[0], sh), '%s, reward in the history but feedback() not yet called: %s (crash point %d of schedule %s)' % (sh, d[1], c, ''.join(sched)), c))
     lcont = []
     if det:
       lcont = list(P[k:k + CONT])
       if len(lcont) < CONT and res['terminal'] is not None:
         lcont.append(-1 - res['terminal'][1])
-    outs.append([lobs, robs, lcont, rcont])
+    outs.append([lobs, robs, lcont, rcont, und])
     sh = shape(cfg)
     if err is not None:
       hits.append(('C15/recover-raises/%s/%s' % (sh, err.split(':')[0]), 'recover() raises %s at crash point %d' % (err, c), c))
@@ -401,7 +438,17 @@ def evaluate_case(case, lv=None):
       hits.append(('C15/%s/%s' % (d[0], sh), '%s: %s (crash point %d of schedule %s)' % (sh, d[1], c, ''.join(sched)), c))
     elif det and lcont != rcont:
       hits.append(('C15/continuation/%s' % sh, '%s continues with %s after recovery, the uninterrupted run with %s (crash point %d)' % (sh, rcont, lcont, c), c))
+  live = res['live']
+  allobs = [o[0] for o in outs]
+  def walk(o):
+    yield o
+    for i in o[5]:
+      yield from walk(i)
+  skipped = sum(1 for o in outs[-1:] for x in walk(o[0]) for d in x[2] if d[7])
   info = dict(proposals=len(P), terminal=res['terminal'], repro=res['repro'], updates=res['updates'], crash_points=nsn,
+              evolve_calls=len(res['repro']), max_population=max([len(x[2]) for o in allobs for x in walk(o)] or [0]),
+              cache_keys=max([len(x[3]) for o in allobs for x in walk(o)] or [0]),
+              skipped=res['skipped'], auto_rewarded=res['auto_rewarded'], undelivered=sum(1 for o in outs if o[4]),
               max_inflight=max([o[0][0] - o[0][1] for o in outs] or [0]))
   return outs, hits, info
 
@@ -453,15 +500,32 @@ def gen_cfg(rng, kind):
 KINDS = ['sweep', 'rand', 'dedup-sweep', 'dedup-rand', 'dedup-regevo', 'dedup-gevo', 'dedup-hill', 'regevo', 'hill', 'nsga2', 'neat', 'gevo']
 
 def gen_case(rng, kind, n=None, lag=None):
-  sp = rng.choice(SPACE_NAMES)
-  space = Space.get(sp)
   cfg = gen_cfg(rng, kind)
   n = n if n is not None else rng.choice([3, 6, 10, 15, 20, 30])
+  maxlag = lag if lag is not None else rng.choice([0, 1, 2, 3, 3, 5])
+  names = SPACE_NAMES
+  if kind in ('sweep', 'dedup-sweep', 'dedup-rand') and rng.random() < 0.8:
+    # a sweep ends with the space, a de-duplicated stream when every point was proposed max_duplicates times:
+    # mostly pick a space that lasts for the run, sometimes one that ends inside it
+    cap = cfg[4] if cfg[0] == 'dedup' else 1
+    if cfg[0] == 'dedup' and cfg[2]:
+      cap = 0        # a hash modulo 2 or 3 exhausts after a handful of proposals whatever the space
+    names = [x for x in SPACE_NAMES if Space.get(x).m * cap >= n] or SPACE_NAMES
+  if kind == 'neat':
+    # NEAT's Proportional selector divides by zero when the (newest-generation) population has one fitness value:
+    # keep a generation larger than the number of proposals in flight and make the rewards distinct
+    cfg[1] = max(cfg[1], maxlag + 2)
+    names = [x for x in SPACE_NAMES if Space.get(x).m >= 6]
+  sp = rng.choice(names)
+  space = Space.get(sp)
   if lag is not None:
     sched = lag_sched(n, lag)
   else:
-    sched = gen_sched(rng, n, rng.choice([0, 1, 2, 3, 3, 5]), rng.random() < 0.3)
-  return dict(space=sp, alg=cfg, rewards=[rng.randrange(0, 6) for _ in range(space.m)], sched=sched)
+    sched = gen_sched(rng, n, maxlag, rng.random() < 0.3)
+  rewards = [rng.randrange(0, 6) for _ in range(space.m)]
+  if kind == 'neat':
+    rewards = list(range(space.m)); rng.shuffle(rewards)
+  return dict(space=sp, alg=cfg, rewards=rewards, sched=sched)
 
 # ------------------------------------------------------------------------------------------------
 # model cases
@@ -533,9 +597,9 @@ def plan(ctx):
   cases = [('corpus', c) for c in corpus_cases()]
   for kind in KINDS:
     for w in (0, 1, 2, 3):
-      for n in ctx.scale([8], [6, 14, 30]):
+      for n in ctx.scale([9], [6, 14, 30]):
         cases.append(('lag%d' % w, gen_case(rng, kind, n=n, lag=w)))
-    for _ in range(ctx.scale(3, 40)):
+    for _ in range(ctx.scale(6, 60)):
       cases.append(('random', gen_case(rng, kind)))
   return cases
 
@@ -584,7 +648,16 @@ def run(ctx):
     ctx.hist('space', case['space'])
     ctx.hist('crash_points_per_case', min(info['crash_points'] // 10 * 10, 60))
     ctx.hist('max_in_flight', info['max_inflight'])
-    ctx.hist('terminal', 'none' if info['terminal'] is None else 'raised-%d' % info['terminal'][1])
+    ctx.hist('run_ended_by', 'schedule' if info['terminal'] is None or info['terminal'][0] >= len(case['sched']) else 'propose-raised-%s' % {0: 'StopIteration', 1: 'ValueError', 6: 'ZeroDivisionError'}.get(info['terminal'][1], info['terminal'][1]))
+    ctx.hist('proposals_per_run', min(info['proposals'] // 5 * 5, 35))
+    if is_evo(cfg_evo(case['alg'])):
+      ctx.hist('evolve_calls', min(info['evolve_calls'] // 5 * 5, 30))
+      ctx.hist('max_population', min(info['max_population'], 10))
+    if case['alg'][0] == 'dedup':
+      ctx.hist('dedup_runs_with_dropped_duplicates', info['skipped'] > 0)
+      ctx.hist('dedup_runs_with_auto_reward_applied', info['auto_rewarded'] > 0)
+      ctx.hist('dedup_cache_keys', min(info['cache_keys'], 12))
+    ctx.extra['undelivered_reward_recoveries'] = ctx.extra.get('undelivered_reward_recoveries', 0) + info['undelivered']
     ctx.extra['crash_points_total'] = ctx.extra.get('crash_points_total', 0) + info['crash_points']
     for sig, what, c in hits:
       nhits += 1
